@@ -12,7 +12,7 @@ for d in "$HERE"/seeded/*/; do
   (cd /repo && git ls-files -z | xargs -0 cp --parents -t "$T/repo")
   if ! (cd "$T/repo" && patch -s -p1 < "$d/patch.diff" >/dev/null 2>&1); then echo "SKIP   $id (patch does not apply to the current tree)"; rm -rf "$T"; continue; fi
   if ! (cd "$T/repo" && go build ./... >/dev/null 2>&1); then echo "SKIP   $id (does not build on the current tree)"; rm -rf "$T"; continue; fi
-  "$HERE/bin/ucanlint" -property all -repo "$T/repo" -verif "$HERE" -out "$T/out" > "$T/log" 2>&1
+  "${UCANLINT:-$HERE/bin/ucanlint}" -property all -repo "$T/repo" -verif "$HERE" -out "$T/out" > "$T/log" 2>&1
   hits=$(grep '^  rule' "$T/log" | awk '{print $2}' | sort -u | tr '\n' ' ')
   if [ -n "$hits" ]; then echo "CAUGHT $id -> $hits"; else echo "MISSED $id"; bad=1; fi
   rm -rf "$T"
